@@ -558,6 +558,64 @@ def _oracle_extra(ctx, dumps):
                 if not (np.array_equal(X, d.X) and np.array_equal(W, d.W)):
                     ctx.fail(f'dispatch={nm_}:order={n}', f'get_quadrature({nm_}, {n}) differs from get_quadrature({cell}, {n})',
                              {'element': nm_, 'order': n, 'cell': cell})
+    # (a2) other public call forms of the same rules: keyword arguments, numpy-integer and integral float orders, the
+    #      per-cell functions called directly — all must return exactly the arrays of get_quadrature(refdom, n)
+    import skfem.quadrature as Q
+    import skfem.refdom as RD
+    direct = {'RefTri': Q.get_quadrature_tri, 'RefTet': Q.get_quadrature_tet, 'RefLine': Q.get_quadrature_line}
+    ctx.extra['api_coverage'] = {
+        'get_quadrature(refdom, n) for the seven reference cells, n in [-2, N]': 'covered before (dump, proved)',
+        'get_quadrature(element instance | element class, n)': 'covered before (dispatch)',
+        'get_quadrature(refdom_or_elem=..., norder=...) keywords; n as numpy integer / integral float': 'covered now (call-form: identical arrays)',
+        'get_quadrature_tri / _tet / _line(n) called directly; get_quadrature_point()': 'covered now (call-form: identical arrays)',
+        'get_quadrature(ElementVector / ElementDG / ElementComposite wrappers)': 'covered now (call-form: refdom of the wrapper)',
+        'get_quadrature(unsupported object)': 'covered now (must raise NotImplementedError)',
+        'Refdom tables (facets, edges, normals, on_facet)': 'out of scope: topology tables (C11) / skeleton elements; vertices are tied by tie_shapes',
+    }
+    for cell in ('RefLine', 'RefTri', 'RefTet', 'RefQuad', 'RefHex', 'RefWedge', 'RefPoint'):
+        rd = getattr(RD, cell)
+        for n in (0, 2, 3, 4, 7):
+            d = dumps.get((cell, n))
+            if d is None or d.kind != 'rule':
+                continue
+            forms = [('keywords', lambda: get_quadrature(refdom_or_elem=rd, norder=n)), ('numpy int64', lambda: get_quadrature(rd, np.int64(n))),
+                     ('integral float', lambda: get_quadrature(rd, float(n)))]
+            if cell in direct:
+                forms.append(('direct function', lambda: direct[cell](n)))
+            if cell == 'RefPoint':
+                forms.append(('direct function', lambda: Q.get_quadrature_point(n)))
+                forms.append(('direct function, default order', lambda: Q.get_quadrature_point()))
+            for name, fn in forms:
+                ctx.count(('call-form', cell, n, name), nontrivial=True)
+                try:
+                    Xf, Wf = fn()
+                except Exception as ex:
+                    ctx.fail(f'call-form={cell}:{name}', f'get_quadrature for {cell}, order {n}, called as "{name}" raised {type(ex).__name__}: {ex}',
+                             {'cell': cell, 'order': n, 'form': name})
+                    continue
+                if not (np.array_equal(np.asarray(Xf), d.X) and np.array_equal(np.asarray(Wf), d.W)):
+                    ctx.fail(f'call-form={cell}:{name}', f'get_quadrature for {cell}, order {n}, called as "{name}" differs from get_quadrature({cell}, {n})',
+                             {'cell': cell, 'order': n, 'form': name})
+    for label, mk in (('ElementVector(ElementTetP1)', lambda: el.ElementVector(el.ElementTetP1())), ('ElementDG(ElementTriP2)', lambda: el.ElementDG(el.ElementTriP2())),
+                      ('ElementComposite(TriP1,TriP2)', lambda: el.ElementComposite(el.ElementTriP1(), el.ElementTriP2()))):
+        try:
+            e = mk()
+        except Exception:
+            continue
+        cell = e.refdom.__name__
+        d = dumps.get((cell, 4))
+        if d is not None and d.kind == 'rule':
+            Xf, Wf = get_quadrature(e, 4)
+            ctx.count(('call-form', label), nontrivial=True)
+            if not (np.array_equal(np.asarray(Xf), d.X) and np.array_equal(np.asarray(Wf), d.W)):
+                ctx.fail(f'call-form={label}', f'get_quadrature({label}, 4) differs from get_quadrature({cell}, 4)', {'element': label, 'order': 4})
+    try:
+        get_quadrature(object(), 2)
+        ctx.fail('call-form=unsupported-object', 'get_quadrature(object(), 2) returned a rule instead of raising', {})
+    except NotImplementedError:
+        pass
+    except Exception as ex:
+        ctx.hist('unsupported-object-exception', type(ex).__name__)
     # (b) orders far beyond the tables: must raise (or else deliver that degree, which the audit decides)
     far = list(range(25, 40)) + [50, 64, 100, 1000, 10 ** 6]
     for cell in ('RefTri', 'RefTet', 'RefWedge'):
